@@ -118,10 +118,9 @@ def canon(x):
     if isinstance(x, (set, frozenset)):
         return ['SET'] + sorted((canon(y) for y in x), key=_skey)
     if isinstance(x, dict):
-        # results that are mappings are compared as mappings
-        items = [[canon(k), canon(v)] for k, v in x.items()]
-        items.sort(key=_skey)
-        return ['MAP', items]
+        # iteration order of a returned mapping is observable (e.g. the order in which
+        # Model.errors lists its contexts), so it is part of the result
+        return ['MAP', [[canon(k), canon(v)] for k, v in x.items()]]
     if hasattr(x, 'name') and hasattr(x, 'value') and type(x).__module__.startswith('penman'):
         return ['ENUM', x.name]
     return ['OBJ', type(x).__name__, str(x)]
